@@ -333,6 +333,18 @@ func importWriteDiscipline(c *Ctx, rule, rel string) {
 	importPremises(c, rule, "write-error premise ", "a write error that is dropped turns truncated output into a successful render", inPkg, func() { runC15(c) })
 	importPremises(c, rule, "own-buffer premise ", "Render must return what this render wrote, nothing left over from another", func(o *Ob) bool { return o.Rule == "R10.3" && inPkg(o) }, func() { runC10(c) })
 	importPremises(c, rule, "no-text-on-error premise ", "an error must not come with a partial document", func(o *Ob) bool { return o.Rule == "R09.R" && inPkg(o) && !strings.Contains(o.Construct, "premise") }, func() { runC09(c) })
+	importFreshState(c, rule, rel)
+}
+
+// importFreshState: what is rendered is the table as it is NOW: nothing measured, resolved or formatted by an earlier
+// render is kept on the wrapper or on the cells and used again (C14's rules, for the functions of renderer rel).
+func importFreshState(c *Ctx, rule, rel string) {
+	inPkg := func(o *Ob) bool {
+		return strings.Contains(o.Func, rel+".") || strings.Contains(o.Func, "*"+rel+".")
+	}
+	importPremises(c, rule, "fresh-state premise ", "a render that keeps results of an earlier one (on the wrapper, on the cells) can show an earlier state of the table", func(o *Ob) bool {
+		return (o.Rule == "R14.1" || o.Rule == "R14.3") && inPkg(o)
+	}, func() { runC14(c) })
 }
 
 // importPropertyStore: a renderer that resolves a column setting (alignment, skipable) relies on a get returning
